@@ -68,6 +68,28 @@ subjectAltName = DNS:{san}
     # self-signed leaf
     sh(["openssl", "req", "-x509", "-newkey", "rsa:2048", "-nodes", "-keyout", o("selfsigned.key"), "-out", o("selfsigned.pem"), "-days", "3650",
         "-subj", "/CN=localhost", "-addext", "subjectAltName=DNS:localhost", "-addext", "basicConstraints=CA:FALSE"])
+    # a tiny Ed25519 root (DER < 256 bytes, so its outer SEQUENCE uses the short 0x30 0x81 length form) and a leaf under it
+    mincnf = o("ca4.cnf")
+    open(mincnf, "w").write("""[req]
+distinguished_name = dn
+x509_extensions = v3
+prompt = no
+[dn]
+CN = e
+[v3]
+basicConstraints = critical,CA:TRUE
+subjectKeyIdentifier = none
+authorityKeyIdentifier = none
+""")
+    sh(["openssl", "req", "-x509", "-newkey", "ed25519", "-nodes", "-keyout", o("ca4.key"), "-out", o("ca4.pem"), "-days", "3650", "-config", mincnf, "-set_serial", "1"])
+    sh(["openssl", "x509", "-in", o("ca4.pem"), "-outform", "DER", "-out", o("ca4.der")])
+    assert os.path.getsize(o("ca4.der")) < 256, os.path.getsize(o("ca4.der"))
+    sh(["openssl", "req", "-newkey", "ed25519", "-nodes", "-keyout", o("valided.key"), "-out", o("valided.csr"), "-subj", "/CN=localhost"])
+    ext = o("valided.ext")
+    open(ext, "w").write("basicConstraints=CA:FALSE\nkeyUsage=digitalSignature\nextendedKeyUsage=serverAuth\nsubjectAltName=DNS:localhost\n")
+    sh(["openssl", "x509", "-req", "-in", o("valided.csr"), "-CA", o("ca4.pem"), "-CAkey", o("ca4.key"), "-set_serial", "77", "-days", "3650", "-extfile", ext, "-out", o("valided.pem")])
+    os.remove(o("valided.csr"))
+    assert "OK" in sh(["openssl", "verify", "-CAfile", o("ca4.pem"), o("valided.pem")])
     # sanity: openssl's own verdicts
     ok = sh(["openssl", "verify", "-CAfile", o("ca1.pem"), o("valid.pem")])
     assert "OK" in ok, ok
